@@ -9,6 +9,7 @@ import (
 	"os"
 	"regexp"
 	"sort"
+	"strconv"
 	"strings"
 	"sync"
 
@@ -177,35 +178,60 @@ func execOp(op c09Op, cc *sut.Compiled, dataMaps, ijMaps []data.Map, cat soymsg.
 			r.esc = esc.Value + " at " + esc.Site
 		}
 	case "compile":
-		gc := gen.Generate(op.Seed, smallOpts())
-		if op.Bad {
-			gc.Files[0] = &gen.File{Name: gc.Files[0].Name, Text: damage(gc.Files[0].Source(), op.Seed)}
-		}
+		// (the case was generated and printed in the set-up: fmt keeps its printers in a real sync.Pool,
+		// whose hand-over would order one client task after another for the race detector)
+		gc := prepared(op)
 		c2, err := sut.Compile(gc)
 		r.err = err != nil
 		if err == nil {
 			var buf bytes.Buffer
 			for _, m := range c2.Msgs {
-				fmt.Fprintf(&buf, "%d;", m.ID)
+				buf.WriteString(strconv.FormatUint(m.ID, 10))
+				buf.WriteByte(';')
 			}
 			e := gc.Entries[0]
 			rerr, _ := c2.Render(&buf, e.Template, gc.Data[e.Data].Map(), gc.IJ[e.IJ].Map(), nil)
-			fmt.Fprintf(&buf, "|%v", rerr != nil)
+			buf.WriteString("|" + strconv.FormatBool(rerr != nil))
 			r.out = buf.Bytes()
 		}
 	case "parse":
-		gc := gen.Generate(op.Seed, smallOpts())
-		src := gc.Files[0].Source()
-		if op.Bad {
-			src = damage(src, op.Seed)
-		}
-		n, err := parse.SoyFile("p.soy", src)
+		gc := prepared(op)
+		n, err := parse.SoyFile("p.soy", gc.Files[0].Text)
 		r.err = err != nil
 		if n != nil {
-			r.out = []byte(fmt.Sprint(len(n.Body)))
+			r.out = []byte(strconv.Itoa(len(n.Body)))
 		}
 	}
 	return r
+}
+
+// preparedCases holds the independent bundles of the run's compile and parse operations, generated
+// and printed before the client tasks start (read-only afterwards).
+var preparedCases map[string]*gen.Case
+
+func prepKey(op c09Op) string {
+	return strconv.FormatUint(op.Seed, 16) + "|" + strconv.FormatBool(op.Bad)
+}
+
+func prepared(op c09Op) *gen.Case { return preparedCases[prepKey(op)] }
+
+func prepareCases(cs *c09One) {
+	preparedCases = map[string]*gen.Case{}
+	for _, t := range cs.Tasks {
+		for _, op := range t {
+			if op.Op != "compile" && op.Op != "parse" || preparedCases[prepKey(op)] != nil {
+				continue
+			}
+			gc := gen.Generate(op.Seed, smallOpts())
+			for i, f := range gc.Files {
+				gc.Files[i] = &gen.File{Name: f.Name, Text: f.Source()}
+			}
+			if op.Bad {
+				gc.Files[0].Text = damage(gc.Files[0].Text, op.Seed)
+			}
+			preparedCases[prepKey(op)] = gc
+		}
+	}
 }
 
 func opKey(op c09Op) string { return fmt.Sprintf("%+v", op) }
@@ -349,7 +375,9 @@ func toPoolData(d gen.DVal) *poolData {
 	return p
 }
 
-func sharedKey(op c09Op) string { return fmt.Sprintf("%s|%d|%v", op.Template, op.IJ, op.Cat) }
+func sharedKey(op c09Op) string {
+	return op.Template + "|" + strconv.Itoa(op.IJ) + "|" + strconv.FormatBool(op.Cat)
+}
 
 // sharedRenderers builds the Renderer objects that several tasks will execute concurrently.
 func sharedRenderers(cs *c09One, cc *sut.Compiled, ijMaps []data.Map, cat soymsg.Bundle) map[string]*soyhtml.Renderer {
@@ -397,10 +425,11 @@ func c09Run(cs *c09One, replay bool) c09Outcome {
 		ch = &simrt.Replay{List: cs.Decisions}
 	}
 	var (
-		invalid string
-		results [][]opResult
-		refs    = map[string]opResult{}
-		nops    int
+		invalid        string
+		results        [][]opResult
+		refs           = map[string]opResult{}
+		clientDeadlock []simrt.LeakInfo
+		nops           int
 	)
 	res := simrt.Run(simrt.Config{Budget: 30_000_000, Chooser: ch, NsPerStep: simrt.SpeedFor(cs.Sched.Seed), RecordSwitchPairs: 4096, TraceLog: os.Getenv("VERIF_DEBUG") == "2"}, func() {
 		// ---- set-up, as a server does at start-up: ordinary happens-before to the client tasks
@@ -451,13 +480,12 @@ func c09Run(cs *c09One, replay bool) c09Outcome {
 					invalid = "op refers to missing data"
 					return
 				}
-				k := opKey(op)
-				if _, ok := refs[k]; !ok {
-					refs[k] = execOp(op, ref, refData, refIJ, refCat, refShared)
-				}
 			}
 		}
-		// ---- the concurrent part
+		prepareCases(cs)
+		// ---- the concurrent part.  Nothing has been rendered, generated or evaluated in this run so
+		// far (the "alone" references are computed afterwards): whatever soy fills lazily on first use
+		// is filled by the client tasks, concurrently.
 		results = make([][]opResult, len(cs.Tasks))
 		var wg sync.WaitGroup
 		for ti := range cs.Tasks {
@@ -492,8 +520,21 @@ func c09Run(cs *c09One, replay bool) c09Outcome {
 				}
 			}
 		})
-		simrt.Idle()
+		if left := simrt.Idle(); len(left) > 0 {
+			// the client tasks block one another for ever: main must not wait for them for real
+			clientDeadlock = left
+			return
+		}
 		wg.Wait()
+		// ---- the references: every operation alone, on the second bundle
+		for _, t := range cs.Tasks {
+			for _, op := range t {
+				k := opKey(op)
+				if _, ok := refs[k]; !ok {
+					refs[k] = execOp(op, ref, refData, refIJ, refCat, refShared)
+				}
+			}
+		}
 	})
 	out := c09Outcome{res: res}
 	// the decisions of this run become part of the process log
@@ -509,6 +550,13 @@ func c09Run(cs *c09One, replay bool) c09Outcome {
 		return &wk.Failure{Class: class, Site: site, Detail: detail}
 	}
 	switch {
+	case len(clientDeadlock) > 0 && !res.Budget:
+		var bl []string
+		for _, b := range clientDeadlock {
+			bl = append(bl, b.Name+" blocked in "+b.BlockOp+" at "+SiteName(b.BlockSite))
+		}
+		out.fail = mkf("deadlock", strings.Join(bl, "; "), "the concurrent operations block one another for ever: "+strings.Join(bl, "; "))
+		return out
 	case invalid != "":
 		out.fail = &wk.Failure{Class: "invalid-case", Detail: invalid}
 		return out
